@@ -46,6 +46,149 @@ def layered(cur, new, prec):
     return list(new)
 
 
+def layer_fold(files):
+    """Independent statement of what the layers say (no builder replayed): every declared unit with the names,
+    symbols and aliases it must answer to after all the layers, and for every expand_si unit its six SI forms.
+    All units of all files exist before the extend blocks apply; the blocks apply in file order; the keys of one
+    block name units as the previous layers left them; a block entry prepends / appends / replaces according to
+    the precedence of its block; an SI form is always `prefix ++ current name of its base` and keeps the aliases
+    the layers gave it.  Returns (bases, alias_of_form, tabs, problems)."""
+    tabs = {"p": None, "s": None}
+    for f in files:
+        if f["si"] is not None:
+            for key in ("p", "s"):
+                new = f["si"][key]
+                if tabs[key] is None:
+                    tabs[key] = new
+                elif new is not None:
+                    tabs[key] = [layered(c, n, f["si"]["prec"]) for c, n in zip(tabs[key], new)]
+    bases = []
+    for f in files:
+        for g in f["q"]:
+            if g["units"] is None:
+                continue
+            syss = ["-"] if g["units"][0] == "u" else ["m", "i", "-"]
+            for sysm, l in zip(syss, g["units"][1:]):
+                for e in l:
+                    bases.append({"names": list(e[0]), "symbols": list(e[1]), "aliases": list(e[2]), "ratio": e[3],
+                                  "diff": e[4], "ex": e[5], "q": g["q"], "sys": sysm})
+    have_tabs = tabs["p"] is not None and tabs["s"] is not None
+    form_alias = {}
+
+    def forms(j, pi):
+        b = bases[j]
+        return ([p + n for p in tabs["p"][pi] for n in b["names"]], [p + x for p in tabs["s"][pi] for x in b["symbols"]])
+
+    def who(key):
+        c = []
+        for j, b in enumerate(bases):
+            if key in b["names"] + b["symbols"] + b["aliases"]:
+                c.append((j, None))
+            if b["ex"] and have_tabs:
+                for pi in range(6):
+                    ns, ss = forms(j, pi)
+                    if key in ns + ss + form_alias.get((j, pi), []):
+                        c.append((j, pi))
+        return c
+
+    problems = []
+    for f in files:
+        if f["ex"] is None:
+            continue
+        prec = f["ex"]["prec"]
+        targets = [(who(k), e) for k, e in f["ex"]["units"].items()]
+        if any(len(c) == 0 for c, _ in targets):
+            problems.append("extend_key_of_no_unit_accepted")
+            return bases, form_alias, tabs, problems
+        if any(len(c) > 1 for c, _ in targets):
+            problems.append("extend_key_of_two_units_accepted")
+            return bases, form_alias, tabs, problems
+        if len(set(c[0] for c, _ in targets)) != len(targets):
+            problems.append("two_extend_entries_for_one_unit_accepted")
+            return bases, form_alias, tabs, problems
+        for c, e in targets:
+            j, pi = c[0]
+            if pi is None:
+                b = bases[j]
+                for pos, fld in ((2, "names"), (3, "symbols"), (4, "aliases")):
+                    if e[pos] is not None:
+                        b[fld] = layered(b[fld], e[pos], prec)
+                if e[0] is not None:
+                    b["ratio"] = e[0]
+                if e[1] is not None:
+                    b["diff"] = e[1]
+            else:
+                if any(x is not None for x in e[:4]):
+                    problems.append("edit_of_si_form_other_than_aliases_accepted")
+                    return bases, form_alias, tabs, problems
+                if e[4] is not None:
+                    form_alias[(j, pi)] = layered(form_alias.get((j, pi), []), e[4], prec)
+    return bases, form_alias, tabs, problems
+
+
+def monitor_layers(files, d, idx):
+    """Every unit answers to exactly the keys the layers give it (see layer_fold), through the lookup table that
+    find_unit reads (the harness checks find_unit against that table key by key)."""
+    v = []
+    units = d["units"]
+    bases, form_alias, tabs, problems = layer_fold(files)
+    if problems:
+        return problems
+    expected_keys = set()
+    nforms = 0
+    for j, b in enumerate(bases):
+        if j >= len(units):
+            v.append("declared_unit_missing")
+            break
+        u = units[j]
+        for fld in ("names", "symbols", "aliases"):
+            if u[fld] != b[fld]:
+                v.append("layered_" + fld)
+        if u["ratio"] != b["ratio"] or u["diff"] != b["diff"] or u["q"] != b["q"] or u["sys"] != b["sys"]:
+            v.append("layered_unit_value")
+        for k in b["names"] + b["symbols"] + b["aliases"]:
+            expected_keys.add(k)
+            if idx.get(k) != j:
+                v.append("layered_key_does_not_resolve_to_its_unit")
+        if not b["ex"]:
+            continue
+        if tabs["p"] is None or tabs["s"] is None:
+            v.append("expand_si_without_tables_accepted")
+            continue
+        for pi, pname in enumerate(G.PREFIXES):
+            ns = [p + n for p in tabs["p"][pi] for n in b["names"]]
+            ss = [p + x for p in tabs["s"][pi] for x in b["symbols"]]
+            al = form_alias.get((j, pi), [])
+            keys = ns + ss + al
+            nforms += 1
+            expected_keys.update(keys)
+            if not keys:
+                v.append("si_form_without_key_accepted")
+                continue
+            ts = set(idx.get(k) for k in keys)
+            if len(ts) != 1 or None in ts:
+                v.append("si_form_key_does_not_resolve_to_its_unit")
+                continue
+            t = ts.pop()
+            if t >= len(units) or t < len(bases):
+                v.append("si_form_resolves_to_a_declared_unit")
+                continue
+            x = units[t]
+            if x["names"] != ns or x["symbols"] != ss:
+                v.append("si_form_names")
+            if x["aliases"] != al:
+                v.append("si_form_aliases_not_as_layered")
+            if not close(x["ratio"], b["ratio"] * Fraction(10) ** G.PREFIX_POW[pname]) or x["diff"] != b["diff"] \
+                    or x["q"] != b["q"] or x["sys"] != b["sys"]:
+                v.append("si_form_value")
+    if not v:
+        if set(idx) != expected_keys:
+            v.append("index_differs_from_layered_keys")
+        if len(units) != len(bases) + nforms:
+            v.append("unit_count_differs_from_layers")
+    return v
+
+
 def monitor(files, d, api):
     """The property on the implementation's converter `d` (parsed dump) built from `files` (parsed, as the
     implementation saw them).  Returns the list of violated clauses."""
@@ -178,6 +321,8 @@ def monitor(files, d, api):
                     v.append("extend_precedence_" + fld)
             if e[0] is not None and u["ratio"] != e[0]:
                 v.append("extend_ratio")
+    # all layers: every unit answers to exactly the keys the layers give it
+    v.extend(monitor_layers(files, d, idx))
     # fractions: later layers win, unit > quantity > system > all is what Fractions::config implements;
     # here: the `all/metric/imperial` entries are the last given, clamped
     for key in ("all", "metric", "imperial"):
